@@ -89,3 +89,27 @@ harness! { fn c13_clone_destroy_on_clone_tri_3() unwind(5) { clone_step::<w3::Tr
 harness! { fn c13_clone_create_on_orig_tri_2() unwind(8) { clone_step::<w3::Tri, 2>(0, false, P_ARCH | P_QUERY) } }
 harness! { fn c13_clone_recycle_on_orig_other_2() unwind(4) { clone_step::<w3::Other, 2>(2, false, P_ARCH) } }
 harness! { fn c13_clone_foo_0() unwind(4) { clone_step::<w1::Foo, 0>(0, true, 0) } }
+
+/// A world with TWO populated archetypes: each archetype of the clone equals the same archetype of
+/// the original (no field mix-up in the generated `Clone for World`), and World::with_capacity
+/// hands each archetype its own capacity.
+pub fn clone_two_archetypes<const N1: usize, const N2: usize>() {
+    use w3::*;
+    let mt: Model<N1> = Model::any_inv();
+    let mo: Model<N2> = Model::any_inv();
+    let mut world = W3::both(N1, N2);
+    assert!(world.arch_tri.capacity() == N1 && world.arch_other.capacity() == N2, "World::with_capacity handed an archetype another archetype's capacity");
+    load_into::<Tri, N1>(&mut world, &mt);
+    load_into::<Other, N2>(&mut world, &mo);
+    let mut c = world.clone();
+    assert!(c.arch_tri.len() == mt.len && c.arch_other.len() == mo.len && c.arch_tri.capacity() == N1 && c.arch_other.capacity() == N2, "clone mixed up the archetypes of the world");
+    let ct: Model<N1> = read::<Tri, N1>(&mut c);
+    let co: Model<N2> = read::<Other, N2>(&mut c);
+    assert_unchanged::<Tri, N1>(&mt, &ct);
+    assert_unchanged::<Other, N2>(&mo, &co);
+    cover!(mt.len == N1 && mo.len == 1, "different populations");
+    std::mem::forget(world);
+    std::mem::forget(c);
+}
+
+harness! { fn c13_clone_two_archetypes_2_3() unwind(5) { clone_two_archetypes::<2, 3>() } }
